@@ -31,7 +31,7 @@ func init() {
 	register(&CheckDef{
 		ID:    "C11",
 		Title: "Block/chunk framing round-trips every record at every offset",
-		Reach: []string{"done", "multi-chunk", "padded-tail", "both-io-compared", "reopened", "reopened-with-padded-tail"},
+		Reach: []string{"done", "multi-chunk", "padded-tail", "both-io-compared", "reopened", "reopened-with-padded-tail", "positional-offset-checked", "sequential-offset-checked"},
 		Jobs: func(tier string) []JobSpec {
 			var js []JobSpec
 			add := func(name string, b int, params map[string]int64) {
@@ -80,6 +80,8 @@ func init() {
 				addReal("real-std-batch3", realStd, p("n", 3, "blocks", 1, "win", 9, "io", 0, "batch", 1, "lastsmall", 1))
 				addReal("real-mmap-2rec", realMmap, p("n", 2, "blocks", 2, "win", 9, "io", 1, "lastsmall", 1))
 			}
+			// position arithmetic for every 32-bit block id (files far beyond 4 GiB) at the real geometry, against a fake back-end
+			js = append(js, JobSpec{Name: "real-offsets-all-32-bit-block-ids", Harness: "datafile", Func: "verifHarnessC11Offsets", Params: p(), Scale: map[string]string{}, CrossCheck: tier == "thorough"})
 			js = append(js, JobSpec{Name: "witness", Harness: "datafile", Func: "verifHarnessC11Scaled", Params: p("n", 1, "maxlen", 2, "io", 0, "witness", 1), Scale: scaleDF(32), Witness: true})
 			return js
 		},
